@@ -15,7 +15,6 @@ import (
 
 	"github.com/33cn/chain33/blockchain"
 	"github.com/33cn/chain33/client"
-	"github.com/33cn/chain33/common"
 	"github.com/33cn/chain33/common/address"
 	"github.com/33cn/chain33/common/crypto"
 	cryptocli "github.com/33cn/chain33/common/crypto/client"
@@ -162,13 +161,9 @@ func newNode(v variant, mvccInNode bool) *node {
 	q.SetConfig(cfg)
 	n := &node{q: q, mvccInNode: mvccInNode, datadir: util.ResetDatadir(mcfg, "$TEMP/")}
 	address.Init(mcfg.Address)
-	t0 := time.Now()
 	start := func(m queue.Module) {
 		m.SetQueueClient(q.Client())
 		n.mods = append(n.mods, m)
-		if os.Getenv("C14_TIMING") != "" {
-			fmt.Printf("  start %T %v\n", m, time.Since(t0))
-		}
 	}
 	start(cryptocli.New())
 	start(executor.New(cfg))
@@ -191,9 +186,6 @@ func newNode(v variant, mvccInNode bool) *node {
 			fixturef("no genesis block after 60 s")
 		}
 		time.Sleep(2 * time.Millisecond)
-	}
-	if os.Getenv("C14_TIMING") != "" {
-		fmt.Printf("  genesis %v\n", time.Since(t0))
 	}
 	return n
 }
@@ -646,15 +638,16 @@ func rawDiff(before, after map[string]string) []string {
 	return d
 }
 
-// keyClass maps a raw db key to a short class name for the information-only counters.
+// keyClass maps a raw db key to its prefix (up to the first ':' or a '-' after the 4th byte) for the
+// information-only counters.
 func keyClass(k string) string {
 	for i, c := range k {
 		if c == ':' || c == '-' && i > 3 {
 			return k[:i]
 		}
 	}
-	if len(k) > 12 {
-		return common.ToHex([]byte(k[:4]))
+	if len(k) > 8 {
+		return fmt.Sprintf("%q", k[:8])
 	}
-	return k
+	return fmt.Sprintf("%q", k)
 }
